@@ -206,6 +206,10 @@ inductive Item where
   | path (rel : P)                          -- a path-typed value spelled `rel` inside the current config
   | sub (ref : P) (items : List Item)       -- a value that names another config file, loaded in place
   | listFile (ref : P) (rels : List P)      -- a `List[Path]` value that names a file with one path per line (`enable_path`)
+  | subObj (ref rem : P) (isDir : Bool) (items : List Item)
+      -- a config file (or, `isDir`, a directory) handed over as a `Path` OBJECT that was created from spelling `ref`
+      -- while `rem` was the working directory (explicit `cwd=rem`, or the process was there and has moved since):
+      -- `parse_path(obj)`, `ActionConfigFile.apply_config(…, obj)`, `obj.relative_path_context()`
   | fail                                    -- anything that makes the parse raise here
 deriving Repr
 
@@ -214,7 +218,11 @@ structure Load where
   items : List Item
 deriving Repr
 
-/-- process-global state the bracket touches -/
+/-- process-global state the bracket touches.  `cwd` is the PROCESS working
+directory; it must not be confused with the directory a `Path` object remembers
+(`PathObj.cwd`, the `rem` of `Item.subObj`, `Resolved.base` of the object's own
+record): the two differ as soon as an object outlives an `os.chdir` or was
+created with `cwd=`. -/
 structure St where
   cwd : P                     -- os.getcwd()
   cpd : Option P              -- the context variable `current_path_dir`
@@ -239,8 +247,17 @@ def resolve (rel base : P) : Resolved := ⟨rel, (mkPath rel rel base).absolute,
 (`os.path.dirname(Path(ref).absolute)`) -/
 def cfgDir (base ref : P) : P := dirname (mkPath ref ref base).absolute
 
+/-- directory entered for a `Path` object: `path.absolute` when the mode has `d`,
+else `os.path.dirname(path.absolute)`; `path.cwd` (= `rem`) only served, at
+creation, to compute `absolute` -/
+def objDir (ref rem : P) (isDir : Bool) : P :=
+  if isDir then (mkPath ref ref rem).absolute else dirname (mkPath ref ref rem).absolute
+
 /-- `change_to_path_dir(path).__enter__`: remember the context variable and the
-working directory, set both (`os.chdir(os.path.abspath(path_dir))`) -/
+working directory, set both (`os.chdir(os.path.abspath(path_dir))`).  The
+process always moves to the file's directory: the code makes no "already
+there" test at all, neither against the process cwd `_s.cwd` (where it would be
+harmless) nor against the directory the object remembers (where it would be wrong). -/
 def enter (_s : St) (dir : P) : St := { cwd := normAbs dir, cpd := some dir }
 
 /-- the `finally:` of `change_to_path_dir`: `current_path_dir.reset(token)`,
@@ -269,6 +286,9 @@ def runItem : Item → St → Res
   | .sub ref items, s =>
     let r := runItems items (enter s (cfgDir s.cwd ref))
     ⟨r.ok, resolve ref s.cwd :: r.trace, leave s r.st⟩
+  | .subObj ref rem isDir items, s =>
+    let r := runItems items (enter s (objDir ref rem isDir))
+    ⟨r.ok, resolve ref rem :: r.trace, leave s r.st⟩
 def runItems : List Item → St → Res
   | [], s => ⟨true, [], s⟩
   | i :: rest, s =>
@@ -289,6 +309,7 @@ def specItem : P → Item → List Resolved
   | _, .fail => []
   | base, .listFile ref rels => rels.map (fun rel => resolve rel (normAbs (cfgDir base ref)))
   | base, .sub ref items => resolve ref base :: specItems (normAbs (cfgDir base ref)) items
+  | _, .subObj ref rem isDir items => resolve ref rem :: specItems (normAbs (objDir ref rem isDir)) items
 def specItems : P → List Item → List Resolved
   | _, [] => []
   | base, i :: rest => specItem base i ++ specItems base rest
@@ -300,6 +321,7 @@ def noFailItem : Item → Bool
   | .fail => false
   | .listFile _ _ => true
   | .sub _ items => noFailItems items
+  | .subObj _ _ _ items => noFailItems items
 def noFailItems : List Item → Bool
   | [] => true
   | i :: rest => noFailItem i && noFailItems rest
@@ -312,6 +334,7 @@ def stableItem : P → Item → Bool
   | _, .fail => true
   | base, .listFile ref _ => listRefStable base ref
   | base, .sub ref items => stableItems (normAbs (cfgDir base ref)) items
+  | _, .subObj ref rem isDir items => stableItems (normAbs (objDir ref rem isDir)) items
 def stableItems : P → List Item → Bool
   | _, [] => true
   | base, i :: rest => stableItem base i && stableItems base rest
